@@ -312,4 +312,161 @@ theorem oracle_none (h : Hdr) (C : Canon h) : violation h (forwarded h) = none :
   simp only [f1, f2, f3]
   simp
 
+/-! ## header maps read from the wire are canonical maps -/
+set_option maxRecDepth 100000 in
+theorem tchar_upper : ∀ x : UInt8, isTchar (upper x) = isTchar x := by
+  apply byte_forall; decide
+set_option maxRecDepth 100000 in
+theorem upper_upper : ∀ x : UInt8, upper (upper x) = upper x := by
+  apply byte_forall; decide
+set_option maxRecDepth 100000 in
+theorem lower_upper : ∀ x : UInt8, lower (upper x) = lower x := by
+  apply byte_forall; decide
+set_option maxRecDepth 100000 in
+theorem dash_upper : ∀ x : UInt8, (upper x == 45) = (x == 45) := by
+  apply byte_forall; decide
+
+theorem canonGo_tchar (up : Bool) (a : Bytes) (h : a.all isTchar = true) : (canonGo up a).all isTchar = true := by
+  induction a generalizing up with
+  | nil => rfl
+  | cons x a ih =>
+    simp only [List.all_cons, Bool.and_eq_true] at h
+    simp only [canonGo, List.all_cons, Bool.and_eq_true]
+    refine ⟨?_, ih _ h.2⟩
+    cases up
+    · simp only [Bool.false_eq_true, if_false]; rw [tchar_lower]; exact h.1
+    · simp only [if_true]; rw [tchar_upper]; exact h.1
+
+theorem canonGo_idem (up : Bool) (a : Bytes) : canonGo up (canonGo up a) = canonGo up a := by
+  induction a generalizing up with
+  | nil => rfl
+  | cons x a ih =>
+    cases up
+    · simp only [canonGo, Bool.false_eq_true, if_false, lower_lower, dash_lower, ih]
+    · simp only [canonGo, if_true, upper_upper, dash_upper, ih]
+
+theorem canon_tchar (k : Bytes) (h : k.all isTchar = true) : (canon k).all isTchar = true := by
+  unfold canon; simp only [h, if_true]; exact canonGo_tchar true k h
+
+theorem canon_idem (k : Bytes) (h : k.all isTchar = true) : canon (canon k) = canon k := by
+  have h2 := canon_tchar k h
+  have e : canon k = canonGo true k := by unfold canon; simp [h]
+  rw [e] at h2 ⊢
+  unfold canon
+  simp only [h2, if_true]
+  exact canonGo_idem true k
+
+theorem canon_nonempty (k : Bytes) (h : k ≠ []) : canon k ≠ [] := by
+  unfold canon
+  split
+  · cases k with
+    | nil => exact absurd rfl h
+    | cons x a => simp [canonGo]
+  · exact h
+
+/-- every key of a grouped field list is the canonical form of a name on the wire -/
+theorem groupFields_keys (fs : List (Bytes × Bytes)) :
+    ∀ kv ∈ groupFields fs, ∃ f ∈ fs, kv.1 = canon f.1 := by
+  induction fs with
+  | nil => intro kv h; cases h
+  | cons f rest ih =>
+    intro kv h
+    obtain ⟨k, v⟩ := f
+    simp only [groupFields] at h
+    rcases List.mem_cons.mp h with e | e
+    · exact ⟨(k, v), List.mem_cons_self .., by rw [e]⟩
+    · obtain ⟨f', hf', e'⟩ := ih kv (List.mem_filter.mp e).1
+      exact ⟨f', List.mem_cons_of_mem _ hf', e'⟩
+
+theorem groupFields_nodup (fs : List (Bytes × Bytes)) : ((groupFields fs).map (·.1)).Nodup := by
+  induction fs with
+  | nil => exact List.nodup_nil
+  | cons f rest ih =>
+    obtain ⟨k, v⟩ := f
+    simp only [groupFields, List.map_cons]
+    apply List.nodup_cons.mpr
+    constructor
+    · intro hmem
+      obtain ⟨kv, hkv, e⟩ := List.mem_map.mp hmem
+      have := (List.mem_filter.mp hkv).2
+      simp only [bne_iff_ne, ne_eq] at this
+      exact this e
+    · exact (List.filter_sublist.map _).nodup ih
+
+/-- **header maps read from the wire are canonical**: distinct keys, each the canonical form of a token -/
+theorem groupFields_canon (fs : List (Bytes × Bytes)) (ht : ∀ f ∈ fs, isToken f.1 = true) :
+    Canon (groupFields fs) := by
+  refine ⟨groupFields_nodup fs, ?_, ?_⟩
+  · intro kv hkv
+    obtain ⟨f, hf, e⟩ := groupFields_keys fs kv hkv
+    have := ht f hf
+    simp only [isToken, Bool.and_eq_true] at this
+    rw [e]; exact canon_tchar _ this.2
+  · intro kv hkv
+    obtain ⟨f, hf, e⟩ := groupFields_keys fs kv hkv
+    have := ht f hf
+    simp only [isToken, Bool.and_eq_true] at this
+    rw [e]; exact canon_idem _ this.2
+
+theorem canon_filter {h : Hdr} (C : Canon h) (p : Bytes × List Bytes → Bool) : Canon (h.filter p) :=
+  ⟨(List.filter_sublist.map _).nodup C.nodup,
+   fun kv hkv => C.tok kv (List.mem_filter.mp hkv).1,
+   fun kv hkv => C.can kv (List.mem_filter.mp hkv).1⟩
+
+theorem canon_append_new {h : Hdr} (C : Canon h) (k : Bytes) (vs : List Bytes) (hk : k.all isTchar = true)
+    (hc : canon k = k) (hn : ∀ kv ∈ h, kv.1 ≠ k) : Canon (h ++ [(k, vs)]) := by
+  refine ⟨?_, ?_, ?_⟩
+  · simp only [List.map_append, List.map_cons, List.map_nil]
+    apply List.nodup_append.mpr
+    refine ⟨C.nodup, by simp, ?_⟩
+    intro a ha b hb
+    simp only [List.mem_cons, List.not_mem_nil, or_false] at hb
+    obtain ⟨kv, hkv, e⟩ := List.mem_map.mp ha
+    rw [hb, ← e]; exact hn kv hkv
+  · intro kv hkv
+    rcases List.mem_append.mp hkv with h1 | h1
+    · exact C.tok kv h1
+    · simp only [List.mem_cons, List.not_mem_nil, or_false] at h1; rw [h1]; exact hk
+  · intro kv hkv
+    rcases List.mem_append.mp hkv with h1 | h1
+    · exact C.can kv h1
+    · simp only [List.mem_cons, List.not_mem_nil, or_false] at h1; rw [h1]; exact hc
+
+/-- whatever `ReadRequest` leaves of a field list with token names is a canonical map -/
+theorem wireHeader_canon (wf : List (Bytes × Bytes)) (ht : ∀ f ∈ wf, isToken f.1 = true)
+    (h : Hdr) (fr : Framing) (hw : wireHeader wf = some (h, fr)) : Canon h := by
+  have c0 : Canon (groupFields (wf.filter fun f => canon f.1 != kHost)) :=
+    groupFields_canon _ (fun f hf => ht f (List.mem_filter.mp hf).1)
+  unfold wireHeader at hw
+  simp only [] at hw
+  generalize hh0 : groupFields (wf.filter fun f => canon f.1 != kHost) = h0 at hw c0
+  have c1 : Canon (if (getFirst h0 kPragma == sNoCache && !(h0.any fun kv => kv.1 == kCacheControl)) = true
+      then h0 ++ [(kCacheControl, [sNoCache])] else h0) := by
+    split
+    · rename_i hc
+      simp only [Bool.and_eq_true, Bool.not_eq_true', List.any_eq_false, beq_iff_eq] at hc
+      exact canon_append_new c0 kCacheControl _ (by decide) (by decide) (fun kv hkv => hc.2 kv hkv)
+    · exact c0
+  generalize (if (getFirst h0 kPragma == sNoCache && !(h0.any fun kv => kv.1 == kCacheControl)) = true
+      then h0 ++ [(kCacheControl, [sNoCache])] else h0) = h1 at hw c1
+  have dt : ∀ x : Hdr, Canon x →
+      Canon (if (getFirst x kTrailer).isEmpty = true then x else x.filter fun kv => kv.1 != kTrailer) := by
+    intro x cx; split
+    · exact cx
+    · exact canon_filter cx _
+  split at hw
+  · split at hw
+    · cases hw
+    · simp only [Option.some.injEq, Prod.mk.injEq] at hw
+      rw [← hw.1]; exact dt _ (canon_filter c1 _)
+  · split at hw
+    · simp only [Option.some.injEq, Prod.mk.injEq] at hw
+      rw [← hw.1]; exact dt _ c1
+    · split at hw
+      · cases hw
+      · split at hw
+        · simp only [Option.some.injEq, Prod.mk.injEq] at hw
+          rw [← hw.1]; exact dt _ c1
+        · cases hw
+
 end BfeVerif.C26
